@@ -245,7 +245,7 @@ class TrajMachine(LogMachine):
             sites = cases.sites_structure(m.matrix, self.sites['frac'], self.sites['labels'], sym)
             tr = gcall(t.transitions_between_sites, sites, sym, site_radius=self.sites['radius'], allow=(ValueError,))
             if not hasattr(tr, 'exc'):
-                gcall(tr.occupancy)
+                gcall(tr.occupancy, allow=(ValueError,))  # (two atoms on one site in one frame: pymatgen refuses an occupancy above 1)
                 gcall(tr.states_next)
                 gcall(tr.radial_distribution, floating_specie=sym, max_dist=3.0, resolution=0.5, allow=(ValueError,))
                 jm = gcall(tr.jumps, allow=(ValueError,))
@@ -334,9 +334,11 @@ class TrajMachine(LogMachine):
         else:  # drift-corrected: every atom's step minus the mean step of all atoms, same first frame
             if tie or T < 1:
                 raise Skip()
+            steps = np.diff(cum, axis=0)
+            if steps.size and np.abs(steps - steps.mean(axis=1, keepdims=True)).max() > 0.5 - 1e-6:
+                raise Skip()  # a corrected step of half a cell or more is no longer a minimum-image step: outside the domain (as in C13)
             new = gcall(t.apply_drift_correction)
             self.flags['disp_switch'] = True
-            steps = np.diff(cum, axis=0)
             corr = np.concatenate([cum[:1] * 0, np.cumsum(steps - steps.mean(axis=1, keepdims=True), axis=0)], axis=0)
             d = np.array(gcall(new.distances_from_base_position))  # (the result is handed out in the displacement representation)
             want = np.linalg.norm(corr @ m.matrix, axis=-1).T
